@@ -9,13 +9,17 @@
      double flip whose two bits are at most 31 positions apart.  (Bit-serial view of the
      register, GF(2)-linearity, injectivity of the shift on 32-bit states.)
    T12d - every error flipping an ODD number of bits (all single and triple flips) is detected.
+   The FILE-LEVEL theorems (written files verify and read back under verify_checksums; a damaged
+   block of a written file is rejected by mtbl_verify and stops a verifying reader at the first
+   operation that loads it) are T12a_* / T12b_file_* in the second part of this file.
    NOT proved: double flips more than 31 bit positions apart (that needs the multiplicative
    order of x modulo the generator, about 2^31); they are sampled by engine c12 on real files,
    which also runs mtbl_verify and a verify_checksums reader on every intact writer-made file
    and on files damaged in data blocks and in the index block (payload and checksum field). *)
-From Coq Require Import NArith List Lia Bool.
+From Coq Require Import NArith ZArith List Lia Bool.
 From Mtbl Require Import gen.Consts model.Bytes model.Codec model.Crc model.Writer spec.Leb128 spec.Parse
-  model.Reader model.Verify proofs.VerifyProofs proofs.CrcDetect proofs.CrcBurst.
+  model.Reader model.Verify model.Order model.Block proofs.BytesLemmas proofs.CodecProofs proofs.WriterProofs proofs.MetaProofs proofs.BlockProofs proofs.ReaderProofs
+  proofs.BlockRT proofs.VerifyProofs proofs.TableRT proofs.VerifyFile proofs.VerifyIter proofs.VerifyDamaged proofs.VerifyShape proofs.CrcDetect proofs.CrcBurst.
 Local Open Scope N_scope.
 
 (* T12b (reader): whatever operation makes a verify_checksums reader load the block at
@@ -78,3 +82,431 @@ Example T12_example :
   crc32c_ref [1; 2; 3] <> crc32c_ref [1; 2; 2] /\
   verify_blocks 3 FORMAT_V2 (frames [(crc32c_ref [7], [7]); (5, [8; 9])]) 0 0 100 2 = VFailed.
 Proof. split; [reflexivity|]. split; [vm_compute; discriminate|vm_compute; reflexivity]. Qed.
+
+
+(* ======================================================================================= *)
+(* C12, file level - Checksums on whole written files.
+   "A file produced by the writer always passes mtbl_verify and can be read completely with
+    verify_checksums enabled.  If bits are changed inside a block's stored bytes or its checksum field
+    so that the CRC no longer matches, mtbl_verify reports failure and a verifying reader stops on that
+    block (at open for the index block, at the first operation that loads it for a data block) before
+    any entry of it is returned."
+   PROVED (models: Writer.v, Reader.v, Verify.v = src/mtbl_verify.c):
+   T12a_verify - for every configuration, every foreign prefix already in the file and every add sequence
+     in T01's domain, verify_file (prefix ++ written bytes) = VOk.
+   T12a_reader / T12a_reader_table - the round trip of C01 with verify_checksums = true (indeed for either
+     setting): open succeeds, iteration from the start returns exactly the accepted entries, never Abort;
+     the opened reader satisfies table_ok, so lookups (T02) and all next/seek histories (T03c) apply.
+   T12b_file_data - the written file is  pre ++ frame_i ++ post  for each data block i (any block, the
+     last one included), frame_i = leb128(length) ++ 4-byte field ++ stored bytes, pre ending at the
+     block's offset.  Replace the field by any c < 2^32 and the stored bytes by any s' of the same length
+     with c <> CRC-32C(s') - every file that differs from the written one only inside the field / stored
+     bytes of that frame and whose field no longer matches is of this form (VerifyShape.damage_shape; the
+     statement in that extensional form is T12b_file_data_ext):
+       . verify_file = VFailed;
+       . reader_open with verify_checksums succeeds; get_block at that block's offset = Abort; every
+         other data block still loads;
+       . iteration from the start delivers exactly the entries of the blocks before block i and then
+         stops with Abort (block 0: reader_iter itself stops); read_all with verify_checksums = Abort;
+       . T12b_file_ops: EVERY reader operation (reader_iter, get / get_prefix / get_range, iterator seek,
+         iterator next) on the damaged file either returns what it returns on the intact file or is
+         Abort, and it is Abort exactly when the operation has to load block i (the offset an operation
+         loads is a function of the index block and the iterator state: iter_loads / init_loads /
+         seek_loads / next_loads).
+   T12b_file_data_flips / T12b_file_index_flips - T12c / T12d carried to the file level: an odd number of
+     flipped bits (every single and triple flip) or any burst within 32 consecutive bit positions of
+     (stored bytes ++ field) of one frame of a written file gives VFailed / Abort as above.
+   T12b_file_index - same for the index frame: reader_open with verify_checksums = Abort, and
+     verify_file = VAbort (mtbl_verify opens the file through a verify_checksums reader, so the process
+     dies on the assertion instead of printing FAILED).
+   Domain: T01's (entry_fits, meta_small, index block < 4 GiB, file < 2^64) plus: values are byte strings
+   and the compressors return byte strings (every list element < 256).  The last two are needed because
+   a "byte" >= 256 is representable in the model and crc32c_ref of such a list can exceed 32 bits, which
+   no real file can exhibit (counterexample in the model: a value [2^120], compression none, gives
+   verify_file = VFailed on the intact model file - T12_model_artifact below).
+   NOT covered: damage to a frame's length prefix or to the trailer (not protected by any CRC: a flip in
+   the trailer's padding leaves verify_file = VOk - T12_example_trailer); whether a given bit pattern
+   changes the CRC is the subject of T12c/T12d (Properties_C12.v). *)
+Section C12_File.
+Variable compress_default : N -> bytes -> res bytes.
+Variable compress_level : N -> Z -> bytes -> res bytes.
+Variable decompress : N -> bytes -> res bytes.
+Hypothesis decompress_compress_default : forall a raw c, compress_default a raw = Ok c -> decompress a c = Ok raw.
+Hypothesis decompress_compress_level : forall a l raw c, compress_level a l raw = Ok c -> decompress a c = Ok raw.
+Hypothesis compress_default_bytes : forall a raw c, compress_default a raw = Ok c -> wf_bytes c.
+Hypothesis compress_level_bytes : forall a l raw c, compress_level a l raw = Ok c -> wf_bytes c.
+
+(* the domain: T01's [fits] plus "values are byte strings"
+     ops_ok o ops = Forall (entry_fits o) ops /\ Forall (fun kv => wf_bytes (snd kv)) ops
+     fits_v o prefix ops w' = ops_ok o ops /\ meta_small (w_m w') /\ m_bytes_index_block (w_m w') < 2^32 /\
+                              len (prefix ++ writer_bytes w') < 2^64 *)
+
+(* ---- T12a ------------------------------------------------------------------------------------------ *)
+Theorem T12a_verify : forall o prefix ops w' rs,
+  1 <= wo_interval o ->
+  writer_session compress_default compress_level o (len prefix) ops = Ok (w', rs) ->
+  ops_ok o ops -> meta_small (w_m w') -> len (prefix ++ writer_bytes w') < 2 ^ 64 ->
+  verify_file (prefix ++ writer_bytes w') = VOk.
+Proof.
+  intros o prefix ops w' rs Hi Hs Hops Hm Hl.
+  exact (written_verify_ok compress_default compress_level compress_default_bytes compress_level_bytes o prefix ops w' rs Hi Hops Hs Hm Hl).
+Qed.
+
+Theorem T12a_reader : forall o prefix ops w' rs,
+  1 <= wo_interval o ->
+  writer_session compress_default compress_level o (len prefix) ops = Ok (w', rs) ->
+  fits_v o prefix ops w' ->
+  forall fuel, (length (kept ops rs) < fuel)%nat ->
+  read_all_v decompress true fuel (prefix ++ writer_bytes w') = Ok (kept ops rs).
+Proof.
+  intros o prefix ops w' rs Hi Hs Hf.
+  exact (written_read_back compress_default compress_level decompress decompress_compress_default decompress_compress_level
+           compress_default_bytes compress_level_bytes true o prefix ops w' rs Hi Hs Hf).
+Qed.
+
+(* strictly increasing input: the table read back with verify_checksums is the input *)
+Theorem T12a_reader_sorted : forall o prefix es w' rs,
+  1 <= wo_interval o -> strictly_sorted (map fst es) ->
+  writer_session compress_default compress_level o (len prefix) es = Ok (w', rs) ->
+  fits_v o prefix es w' ->
+  read_all_v decompress true (S (length es)) (prefix ++ writer_bytes w') = Ok es.
+Proof.
+  intros o prefix es w' rs Hi Hsorted Hs Hf. pose proof Hf as ((Hfit & _) & _).
+  pose proof (roundtrip_sorted compress_default compress_level o prefix es w' rs Hi Hfit Hsorted Hs) as Hk.
+  pose proof (T12a_reader o prefix es w' rs Hi Hs Hf (S (length es))) as H. rewrite Hk in H. apply H. apply Nat.lt_succ_diag_r.
+Qed.
+
+Theorem T12a_reader_table : forall o prefix ops w' rs,
+  1 <= wo_interval o ->
+  writer_session compress_default compress_level o (len prefix) ops = Ok (w', rs) ->
+  fits_v o prefix ops w' ->
+  exists r, fst (reader_open (prefix ++ writer_bytes w') true) = Ok (Some r) /\ r_verify r = true /\
+    ((kept ops rs = [] /\ exists ib r0, r_index r = Some ib /\ ab_entries ib = [] /\ ab_restarts ib = [r0]) \/
+     (exists ib iridx ds, table_ok decompress r ib iridx (length ds) (Bof ds) (Rof ds) /\
+                          table_entries_of (length ds) (Bof ds) = kept ops rs)).
+Proof.
+  intros o prefix ops w' rs Hi Hs Hf.
+  exact (written_table_ok_v compress_default compress_level decompress decompress_compress_default decompress_compress_level
+           compress_default_bytes compress_level_bytes true o prefix ops w' rs Hi Hs Hf).
+Qed.
+
+(* ---- T12b, data blocks -------------------------------------------------------------------------------- *)
+(* [ds]: the data blocks of the file in order (d_off: offset of the frame, d_stored: stored bytes, d_ps:
+   entries, d_ab: the decoded block); the record [layout] ties them to the bytes of the file, to the
+   trailer and to the accepted entries (all_entries ds [] = kept ops rs). *)
+Theorem T12b_file_data : forall o prefix ops w' rs,
+  1 <= wo_interval o ->
+  writer_session compress_default compress_level o (len prefix) ops = Ok (w', rs) ->
+  fits_v o prefix ops w' ->
+  exists ds ib ips iridx,
+    layout compress_default compress_level o prefix ops w' rs ds ib ips iridx /\
+    forall i, (i < length ds)%nat ->
+      let f := prefix ++ writer_bytes w' in
+      let pre := pre_of prefix ds i in
+      let post := post_of w' ds ib i in
+      let s := d_stored (nth i ds dummy_d) in
+      let before := all_entries (firstn i ds) [] in
+      (* block i's frame inside the intact file, and the entries delivered before it *)
+      f = pre ++ fr (crc32c_ref s) s ++ post /\ len pre = d_off (nth i ds dummy_d) /\
+      kept ops rs = before ++ all_entries (skipn i ds) [] /\
+      (* any damage confined to the field and the stored bytes that breaks the checksum *)
+      forall c s', len s' = len s -> c < 2 ^ 32 -> c <> crc32c_ref s' ->
+        let f' := pre ++ fr c s' ++ post in
+        len f' = len f /\
+        verify_file f' = VFailed /\
+        exists r', fst (reader_open f' true) = Ok (Some r') /\ r_verify r' = true /\
+          get_block decompress r' (len pre) = Abort /\
+          (forall j, (j < length ds)%nat -> j <> i ->
+             get_block decompress r' (d_off (nth j ds dummy_d)) = Ok (d_ab (nth j ds dummy_d))) /\
+          (i = 0%nat -> reader_iter decompress r' = Abort) /\
+          ((0 < i)%nat -> exists it, reader_iter decompress r' = Ok (Some it) /\
+             forall fuel, (length before < fuel)%nat -> drain_log decompress fuel r' it = (before, Abort)) /\
+          (forall fuel, (length before < fuel)%nat -> read_all_v decompress true fuel f' = Abort).
+Proof.
+  intros o prefix ops w' rs Hint Hsess (Hops & Hm & Hidxsz & Hlen).
+  destruct (written_layout compress_default compress_level compress_default_bytes compress_level_bytes o prefix ops w' rs Hint Hops Hsess Hlen)
+    as (ds & ib & ips & iridx & L).
+  exists ds, ib, ips, iridx. split; [exact L|]. intros i Hi f pre post s before.
+  split; [exact (intact_split compress_default compress_level o prefix ops w' rs ds ib ips iridx L i Hi)|].
+  split; [exact (pre_of_len compress_default compress_level o prefix ops w' rs ds ib ips iridx L i Hi)|].
+  split.
+  { rewrite <- (ly_ent _ _ _ _ _ _ _ _ _ _ _ L). unfold before, all_entries. cbn [map]. rewrite !app_nil_r, <- concat_app, <- map_app, firstn_skipn. reflexivity. }
+  intros c s' Hs Hc Hne.
+  destruct (damaged_facts compress_default compress_level decompress decompress_compress_default decompress_compress_level
+              o prefix ops w' rs ds ib ips iridx L Hm Hidxsz Hlen i c s' Hi Hs Hc Hne) as (H1 & H2 & H3 & _ & _).
+  destruct (damaged_data compress_default compress_level decompress decompress_compress_default decompress_compress_level
+              o prefix ops w' rs ds ib ips iridx L Hm Hlen i c s' Hi Hs Hc Hne) as (_ & _ & _ & H4 & H5).
+  destruct (damaged_iteration compress_default compress_level decompress decompress_compress_default decompress_compress_level
+              o prefix ops w' rs ds ib ips iridx L Hm Hidxsz Hlen i c s' Hi Hs Hc Hne) as (H6 & H7 & H8).
+  split; [exact H1|]. split; [exact H2|].
+  eexists. split; [exact H3|]. split; [reflexivity|]. split.
+  { unfold pre. rewrite (pre_of_len compress_default compress_level o prefix ops w' rs ds ib ips iridx L i Hi). exact H4. }
+  split; [exact H5|]. split; [exact H6|]. split; [exact H7|exact H8].
+Qed.
+
+
+(* the extensional form: ANY byte string f' of the same length that agrees with the written file outside
+   the checksum field and the stored bytes of data block i is  pre ++ fr c s' ++ post  (c: the value of the
+   field in f', s': the stored bytes in f'); if that field is not the CRC-32C of those bytes, mtbl_verify
+   fails and the verifying reader stops on block i *)
+Theorem T12b_file_data_ext : forall o prefix ops w' rs,
+  1 <= wo_interval o ->
+  writer_session compress_default compress_level o (len prefix) ops = Ok (w', rs) ->
+  fits_v o prefix ops w' ->
+  exists ds ib ips iridx,
+    layout compress_default compress_level o prefix ops w' rs ds ib ips iridx /\
+    forall i, (i < length ds)%nat ->
+      let f := prefix ++ writer_bytes w' in
+      let off := d_off (nth i ds dummy_d) in                     (* where block i's frame starts *)
+      let s := d_stored (nth i ds dummy_d) in
+      let lo := (N.to_nat off + length (leb128 (len s)))%nat in   (* first byte of the checksum field *)
+      let hi := (lo + 4 + length s)%nat in                        (* one past the last stored byte *)
+      forall f', wf_bytes f' -> length f' = length f ->
+        (forall k, (k < lo \/ hi <= k)%nat -> nth k f' 0 = nth k f 0) ->
+        exists c s', c < 2 ^ 32 /\ len s' = len s /\
+          f' = pre_of prefix ds i ++ fr c s' ++ post_of w' ds ib i /\
+          (c <> crc32c_ref s' ->
+             verify_file f' = VFailed /\
+             exists r', fst (reader_open f' true) = Ok (Some r') /\ get_block decompress r' off = Abort /\
+               forall fuel, (length (all_entries (firstn i ds) []) < fuel)%nat -> read_all_v decompress true fuel f' = Abort).
+Proof.
+  intros o prefix ops w' rs Hint Hsess Hfits.
+  destruct (T12b_file_data o prefix ops w' rs Hint Hsess Hfits) as (ds & ib & ips & iridx & L & H).
+  exists ds, ib, ips, iridx. split; [exact L|]. intros i Hi f off s lo hi f' Hw Hlen Hag.
+  destruct (H i Hi) as (Hf & Hpre & _ & Hdam). cbv zeta in Hf, Hpre, Hdam. fold s in Hf, Hdam.
+  assert (Hlo : lo = (length (pre_of prefix ds i) + length (leb128 (len s)))%nat).
+  { unfold lo, off. rewrite <- Hpre. unfold len. rewrite Nat2N.id. reflexivity. }
+  destruct (damage_shape (pre_of prefix ds i) s (post_of w' ds ib i) f' (crc32c_ref s) Hw) as (c & s' & Hc & Hs & Hf').
+  - unfold f in Hlen. rewrite Hf in Hlen. exact Hlen.
+  - intros k Hk. unfold f in Hag. rewrite Hf in Hag. apply Hag. unfold hi. rewrite Hlo. exact Hk.
+  - exists c, s'. split; [exact Hc|]. split; [exact Hs|]. split; [exact Hf'|]. intros Hne.
+    destruct (Hdam c s' Hs Hc Hne) as (_ & Hv & r' & Ho & _ & Hg & _ & _ & _ & Hr).
+    rewrite Hf'. split; [exact Hv|]. exists r'. split; [exact Ho|]. split; [|exact Hr].
+    unfold off. rewrite <- Hpre. exact Hg.
+Qed.
+
+
+(* ---- which damage is guaranteed to break the checksum (T12c / T12d at the file level) ---------------- *)
+(* [s]: the stored bytes in the written file (their field holds crc32c_ref s); [c], [s']: field and
+   stored bytes in the damaged file.
+   odd_damage: an odd number of bits differ - every single and every triple bit flip, wherever the bits are
+   (stored bytes, field, or both).
+   burst_damage: the bits that differ lie within 32 consecutive bit positions of (stored bytes followed
+   by the little-endian field) - in the bytes, in the field or across the boundary. *)
+Definition odd_damage (s : bytes) (c : N) (s' : bytes) : Prop :=
+  length s = length s' /\ xorb (bytes_par (diff s s')) (npar (N.lxor (crc32c_ref s) c)) = true.
+Definition burst_damage (s : bytes) (c : N) (s' : bytes) : Prop :=
+  wf_bytes s' /\ length s = length s' /\ (s, crc32c_ref s) <> (s', c) /\
+  exists lo : nat, forall i, (i < N.of_nat lo \/ N.of_nat lo + 32 <= i) ->
+    N.testbit (N.lxor (le_value (framed s (crc32c_ref s))) (le_value (framed s' c))) i = false.
+
+Lemma damage_detected s c s' : wf_bytes s -> c < 2 ^ 32 -> odd_damage s c s' \/ burst_damage s c s' -> c <> crc32c_ref s'.
+Proof.
+  intros Hw Hc [[Hl Hp]|(Hw' & Hl & Hne & lo & Hb)].
+  - exact (odd_errors_detected s s' c Hl Hp).
+  - exact (burst_detected s s' c lo Hw Hw' Hc Hl Hne Hb).
+Qed.
+
+(* a data block hit by an odd number of bit flips or by a burst of at most 32 bits: mtbl_verify fails and
+   the verifying reader stops before returning any entry of the block *)
+Theorem T12b_file_data_flips : forall o prefix ops w' rs,
+  1 <= wo_interval o ->
+  writer_session compress_default compress_level o (len prefix) ops = Ok (w', rs) ->
+  fits_v o prefix ops w' ->
+  exists ds ib ips iridx,
+    layout compress_default compress_level o prefix ops w' rs ds ib ips iridx /\
+    forall i c s', (i < length ds)%nat ->
+      let s := d_stored (nth i ds dummy_d) in
+      len s' = len s -> c < 2 ^ 32 -> odd_damage s c s' \/ burst_damage s c s' ->
+      let f' := pre_of prefix ds i ++ fr c s' ++ post_of w' ds ib i in
+      verify_file f' = VFailed /\
+      forall fuel, (length (all_entries (firstn i ds) []) < fuel)%nat -> read_all_v decompress true fuel f' = Abort.
+Proof.
+  intros o prefix ops w' rs Hint Hsess Hfits.
+  destruct (T12b_file_data o prefix ops w' rs Hint Hsess Hfits) as (ds & ib & ips & iridx & L & H).
+  exists ds, ib, ips, iridx. split; [exact L|]. intros i c s' Hi s Hs Hc Hd f'.
+  destruct (H i Hi) as (_ & _ & _ & Hdam). cbv zeta in Hdam.
+  assert (Hw : wf_bytes s).
+  { pose proof (ly_wf _ _ _ _ _ _ _ _ _ _ _ L) as Hwf. rewrite Forall_forall in Hwf. apply (Hwf (nth i ds dummy_d)), nth_In, Hi. }
+  destruct (Hdam c s' Hs Hc (damage_detected s c s' Hw Hc Hd)) as (_ & Hv & r' & _ & _ & _ & _ & _ & _ & Hr).
+  split; [exact Hv|exact Hr].
+Qed.
+
+(* the same for the index block *)
+Theorem T12b_file_index_flips : forall o prefix ops w' rs,
+  1 <= wo_interval o ->
+  writer_session compress_default compress_level o (len prefix) ops = Ok (w', rs) ->
+  ops_ok o ops -> meta_small (w_m w') -> len (prefix ++ writer_bytes w') < 2 ^ 64 ->
+  exists pre idx,
+    prefix ++ writer_bytes w' = pre ++ fr (crc32c_ref idx) idx ++ metadata_write (w_m w') /\
+    forall c idx', len idx' = len idx -> c < 2 ^ 32 -> odd_damage idx c idx' \/ burst_damage idx c idx' ->
+      let f' := pre ++ fr c idx' ++ metadata_write (w_m w') in
+      fst (reader_open f' true) = Abort /\ verify_file f' = VAbort.
+Proof.
+  intros o prefix ops w' rs Hint Hsess Hops Hm Hlen.
+  destruct (written_layout compress_default compress_level compress_default_bytes compress_level_bytes o prefix ops w' rs Hint Hops Hsess Hlen)
+    as (ds & ib & ips & iridx & L).
+  exists (pre_index prefix ds), (bb_finish ib).
+  split; [exact (intact_index_split compress_default compress_level o prefix ops w' rs ds ib ips iridx L)|].
+  intros c idx' Hl Hc Hd.
+  destruct (damaged_index compress_default compress_level o prefix ops w' rs ds ib ips iridx L Hm Hlen c idx' Hl Hc
+              (damage_detected _ c idx' (ly_idx_wf _ _ _ _ _ _ _ _ _ _ _ L) Hc Hd)) as (_ & H1 & H2).
+  split; assumption.
+Qed.
+
+(* every operation of the verify_checksums reader on the damaged file *)
+Theorem T12b_file_ops : forall o prefix ops w' rs ds ib ips iridx,
+  layout compress_default compress_level o prefix ops w' rs ds ib ips iridx ->
+  meta_small (w_m w') -> m_bytes_index_block (w_m w') < 2 ^ 32 -> len (prefix ++ writer_bytes w') < 2 ^ 64 ->
+  forall i c s', (i < length ds)%nat -> len s' = len (d_stored (nth i ds dummy_d)) -> c < 2 ^ 32 -> c <> crc32c_ref s' ->
+  let idx := block_init (bb_finish ib) in
+  let iab := iab_of ib ips iridx in
+  let r := mkreader (prefix ++ writer_bytes w') FORMAT_V2 (wo_comp o) true idx (w_m w') in
+  let r' := mkreader (pre_of prefix ds i ++ fr c s' ++ post_of w' ds ib i) FORMAT_V2 (wo_comp o) true idx (w_m w') in
+  (* r and r' are what reader_open returns, r satisfies table_ok with index block iab *)
+  fst (reader_open (prefix ++ writer_bytes w') true) = Ok (Some r) /\
+  fst (reader_open (pre_of prefix ds i ++ fr c s' ++ post_of w' ds ib i) true) = Ok (Some r') /\
+  table_ok decompress r iab iridx (length ds) (Bof ds) (Rof ds) /\
+  ioff iab i = d_off (nth i ds dummy_d) /\
+  (* outcome loads res' res0: loads <> Some (offset of block i) and res' = res0, or
+                              loads = Some (offset of block i) and res' = Abort *)
+  outcome iab i (iter_loads iab) (reader_iter decompress r') (reader_iter decompress r) /\
+  (forall kind key bound, outcome iab i (init_loads iab key) (reader_iter_init decompress r' kind key bound)
+                                                            (reader_iter_init decompress r kind key bound)) /\
+  (forall it key, it_ok iab iridx (length ds) (Bof ds) (Rof ds) it ->
+     outcome iab i (seek_loads iab it key) (reader_iter_seek decompress r' it key) (reader_iter_seek decompress r it key)) /\
+  (forall it, it_ok iab iridx (length ds) (Bof ds) (Rof ds) it ->
+     outcome iab i (next_loads iab it) (reader_iter_next decompress r' it) (reader_iter_next decompress r it)).
+Proof.
+  intros o prefix ops w' rs ds ib ips iridx L Hm Hidxsz Hlen i c s' Hi Hs Hc Hne idx iab r r'.
+  destruct (intact_table compress_default compress_level decompress decompress_compress_default decompress_compress_level
+              o prefix ops w' rs ds ib ips iridx L Hm Hidxsz Hlen i c s' Hi Hs Hc Hne) as (Ho & T & _).
+  destruct (damaged_facts compress_default compress_level decompress decompress_compress_default decompress_compress_level
+              o prefix ops w' rs ds ib ips iridx L Hm Hidxsz Hlen i c s' Hi Hs Hc Hne) as (_ & _ & Ho' & _ & _).
+  destruct (damaged_ops compress_default compress_level decompress decompress_compress_default decompress_compress_level
+              o prefix ops w' rs ds ib ips iridx L Hm Hidxsz Hlen i c s' Hi Hs Hc Hne) as (O1 & O2 & O3 & O4).
+  split; [exact Ho|]. split; [exact Ho'|]. split; [exact T|].
+  split; [exact (ioff_block compress_default compress_level o prefix ops w' rs ds ib ips iridx L Hlen i Hi)|].
+  split; [exact O1|]. split; [exact O2|]. split; [exact O3|exact O4].
+Qed.
+
+(* ---- T12b, index block ---------------------------------------------------------------------------------- *)
+Theorem T12b_file_index : forall o prefix ops w' rs,
+  1 <= wo_interval o ->
+  writer_session compress_default compress_level o (len prefix) ops = Ok (w', rs) ->
+  ops_ok o ops -> meta_small (w_m w') -> len (prefix ++ writer_bytes w') < 2 ^ 64 ->
+  exists pre idx,
+    let f := prefix ++ writer_bytes w' in
+    f = pre ++ fr (crc32c_ref idx) idx ++ metadata_write (w_m w') /\ len pre = m_index_block_offset (w_m w') /\
+    forall c idx', len idx' = len idx -> c < 2 ^ 32 -> c <> crc32c_ref idx' ->
+      let f' := pre ++ fr c idx' ++ metadata_write (w_m w') in
+      len f' = len f /\
+      fst (reader_open f' true) = Abort /\
+      verify_file f' = VAbort.
+Proof.
+  intros o prefix ops w' rs Hint Hsess Hops Hm Hlen.
+  destruct (written_layout compress_default compress_level compress_default_bytes compress_level_bytes o prefix ops w' rs Hint Hops Hsess Hlen)
+    as (ds & ib & ips & iridx & L).
+  exists (pre_index prefix ds), (bb_finish ib). cbv zeta.
+  split; [exact (intact_index_split compress_default compress_level o prefix ops w' rs ds ib ips iridx L)|].
+  split; [exact (pre_index_len compress_default compress_level o prefix ops w' rs ds ib ips iridx L)|].
+  intros c idx' Hl Hc Hne.
+  exact (damaged_index compress_default compress_level o prefix ops w' rs ds ib ips iridx L Hm Hlen c idx' Hl Hc Hne).
+Qed.
+End C12_File.
+
+Print Assumptions T12a_verify.
+Print Assumptions T12a_reader.
+Print Assumptions T12a_reader_sorted.
+Print Assumptions T12a_reader_table.
+Print Assumptions T12b_file_data.
+Print Assumptions T12b_file_data_ext.
+Print Assumptions T12b_file_data_flips.
+Print Assumptions T12b_file_index_flips.
+Print Assumptions T12b_file_ops.
+Print Assumptions T12b_file_index.
+
+(* ---- non-vacuity: a concrete multi-block model file (model writer, compression NONE, 5 foreign bytes in
+   front, 3 data blocks at offsets 5 / 56 / 104, index block at 155, trailer at 188) --------------------- *)
+Definition ex_o : wopts := mkwopts 0 (-10000)%Z 64 2.
+Definition ex_prefix : bytes := [1; 2; 3; 4; 5].
+Definition ex_es : list entry :=
+  [([], [9]); ([97], repeat 120 30); ([97; 98], repeat 121 30); ([98], repeat 122 30); ([98; 0], [])].
+Definition no_comp : N -> bytes -> res bytes := fun _ _ => Fail.
+Definition no_comp_level : N -> Z -> bytes -> res bytes := fun _ _ _ => Fail.
+Definition ex_file : bytes :=
+  match writer_session no_comp no_comp_level ex_o (len ex_prefix) ex_es with Ok (w, _) => ex_prefix ++ writer_bytes w | _ => [] end.
+(* flip the lowest bit of the byte at position k *)
+Definition flip (k : nat) (f : bytes) : bytes := firstn k f ++ N.lxor (nth k f 0) 1 :: skipn (S k) f.
+
+(* the hypotheses of the theorems hold for this instance
+   (fits_v o prefix ops w = ops_ok o ops /\ meta_small (w_m w) /\ m_bytes_index_block (w_m w) < 2^32 /\ len file < 2^64) *)
+Example T12_example_domain :
+  1 <= wo_interval ex_o /\
+  (forall a raw c, no_comp a raw = Ok c -> wf_bytes c) /\ (forall a l raw c, no_comp_level a l raw = Ok c -> wf_bytes c) /\
+  ops_ok ex_o ex_es /\
+  match writer_session no_comp no_comp_level ex_o (len ex_prefix) ex_es with
+  | Ok (w, rs) => meta_small (w_m w) /\ m_bytes_index_block (w_m w) < 2 ^ 32 /\ len (ex_prefix ++ writer_bytes w) < 2 ^ 64 /\
+                  rs = [true; true; true; true; true] /\
+                  m_count_data_blocks (w_m w) = 3 /\ m_index_block_offset (w_m w) = 155
+  | _ => False
+  end.
+Proof.
+  split; [vm_compute; discriminate|]. split; [discriminate|]. split; [discriminate|]. split.
+  - split.
+    + unfold ex_es. repeat (apply Forall_cons; [unfold entry_fits; cbn [fst snd]; repeat split; [repeat constructor|vm_compute; reflexivity ..]|]). apply Forall_nil.
+    + vm_compute. repeat constructor.
+  - vm_compute. repeat split.
+Qed.
+
+(* intact: mtbl_verify OK, complete read with verify_checksums *)
+Example T12_example_intact :
+  verify_file ex_file = VOk /\ read_all_v no_comp true 6 ex_file = Ok ex_es.
+Proof. vm_compute. split; reflexivity. Qed.
+
+(* one bit flipped in the stored bytes of data block 1 (position 70) or in its checksum field (position 58):
+   mtbl_verify FAILED; the verifying reader opens, delivers the two entries of block 0 and stops *)
+Example T12_example_data_block :
+  verify_file (flip 70 ex_file) = VFailed /\ verify_file (flip 58 ex_file) = VFailed /\
+  read_all_v no_comp true 6 (flip 70 ex_file) = Abort /\ read_all_v no_comp true 6 (flip 58 ex_file) = Abort /\
+  match fst (reader_open (flip 70 ex_file) true) with
+  | Ok (Some r') => get_block no_comp r' 56 = Abort /\
+                    match reader_iter no_comp r' with
+                    | Ok (Some it) => drain_log no_comp 6 r' it = ([([], [9]); ([97], repeat 120 30)], Abort)
+                    | _ => False
+                    end
+  | _ => False
+  end /\
+  (* without verify_checksums the damaged value is returned *)
+  match read_all no_comp 6 (flip 70 ex_file) with Ok l => l <> ex_es /\ length l = 5%nat | _ => False end.
+Proof. vm_compute. repeat split; discriminate. Qed.
+
+(* the last data block (position 120), and block 0 (position 20: reader_iter itself stops) *)
+Example T12_example_last_and_first :
+  verify_file (flip 120 ex_file) = VFailed /\ read_all_v no_comp true 6 (flip 120 ex_file) = Abort /\
+  verify_file (flip 20 ex_file) = VFailed /\
+  match fst (reader_open (flip 20 ex_file) true) with
+  | Ok (Some r') => reader_iter no_comp r' = Abort
+  | _ => False
+  end.
+Proof. vm_compute. repeat split. Qed.
+
+(* the index block: stored bytes (position 170) or checksum field (position 157) *)
+Example T12_example_index_block :
+  fst (reader_open (flip 170 ex_file) true) = Abort /\ verify_file (flip 170 ex_file) = VAbort /\
+  fst (reader_open (flip 157 ex_file) true) = Abort /\ verify_file (flip 157 ex_file) = VAbort.
+Proof. vm_compute. repeat split. Qed.
+
+(* outside the claim: the trailer is not covered by any checksum - a flipped padding bit goes unnoticed *)
+Example T12_example_trailer :
+  verify_file (flip 300 ex_file) = VOk /\ flip 300 ex_file <> ex_file.
+Proof. vm_compute. split; [reflexivity|discriminate]. Qed.
+
+(* why "values are byte strings" is a hypothesis: a list element >= 256 is not a byte; the model's
+   crc32c_ref of such a list may not fit 32 bits, and the intact model file then fails its own check *)
+Example T12_model_artifact :
+  match writer_session no_comp no_comp_level ex_o 0 [([1], [2 ^ 120])] with
+  | Ok (w, _) => verify_file (writer_bytes w) = VFailed
+  | _ => False
+  end.
+Proof. vm_compute. reflexivity. Qed.
